@@ -148,6 +148,28 @@ def _worker(args):
     return acc.viol, acc.samples, acc.counts, acc.distinct
 
 
+PKG_BODIES = {12: ("[3] U [UB3]", [("key", 3), ("time", 3)]), 3: ("[950] O [7] U [2000]", [("key", 950), ("key", 7), ("key", 2000)]),
+              7: ("[12P] U [501][901]", [("pkg", 12), ("key", 501), ("key", 901)]), 21: ("[UB1] X [UB2]", [("time", 1), ("time", 2)])}
+TIME_KEYS = {1: [932], 2: [934], 3: [932, 492, 934, 493]}
+
+
+def substituted_operands(ops):
+    """operands of the expression after one level of package expansion and time-condition replacement"""
+    level1 = []
+    for o in ops:
+        if o["t"] == "pkg":
+            level1 += [{"t": t, "n": n} for t, n in PKG_BODIES[o["n"]][1]]
+        else:
+            level1.append(o)
+    out = []
+    for o in level1:
+        if o["t"] == "time":
+            out += [{"t": "key", "n": k} for k in TIME_KEYS[o["n"]]]
+        else:
+            out.append(o)
+    return out
+
+
 def long_expressions(res, work, n):
     """real extraction for random expressions with 8-20 operands over the whole key range, decided by TLC (KeysTrace.tla)"""
     import ahb
@@ -182,10 +204,18 @@ def long_expressions(res, work, n):
                     ops.append({"t": "pkg", "n": rng.randint(1, 30)})
                 else:
                     ops.append({"t": "time", "n": rng.randint(1, 3)})
-            ops = [o if o["t"] != "key" or isinstance(o["n"], int) else o for o in ops]
+            resolve = tid % 3 == 0
+            if resolve:
+                # with package and time-condition resolution: the extract is the extract of the substituted expression (C10)
+                for o in ops:
+                    if o["t"] == "pkg":
+                        o["n"] = rng.choice(list(PKG_BODIES))
+                ahb.set_cer_values(packages={f"{n}P": body[0] for n, body in PKG_BODIES.items()})
             expr = render(ops, rng)
             try:
-                x = await extract_categorized_keys(expr)
+                x = await extract_categorized_keys(expr, resolve_packages=resolve, replace_time_conditions=resolve)
+                if resolve:
+                    ops = substituted_operands(ops)
                 rc, hint, fc, pkg, tm = real_lists(x)
                 ncers = -1
                 if len(rc) + len(fc) >= 1 and len(rc) <= 4 and len(fc) <= 4:
